@@ -170,7 +170,7 @@ def run_case(desc):
     nps = [1, 1, 2, 3, "array"][rng.randint(5)]
     if nps == "array":
         nps = rng.randint(1, 4, size=int(rng.randint(1, 4)))
-    aperf = [None, None, "vec", "mat"][rng.randint(4)]
+    aperf = [None, None, "vec", "mat", "binary"][rng.randint(5)]
     kw = dict(X=X.copy(), y=Y.copy(), batch_size=bs, return_utilities=True)
     if cands is not None:
         kw["candidates"] = cands.copy()
@@ -196,6 +196,8 @@ def run_case(desc):
             kw["A_perf"] = np.round(rng.rand(A), 2)
         elif aperf == "mat":
             kw["A_perf"] = np.round(rng.rand(n_c, A), 2)
+        elif aperf == "binary":
+            kw["A_perf"] = (rng.rand(n_c, A) < 0.5).astype(float)
         comp = "SingleAnnotatorWrapper"
         nps_int = nps if isinstance(nps, int) else [int(v) for v in np.asarray(nps).tolist()]
     # sample-level labels seen by the wrapped strategy (for the G22 trigger)
